@@ -74,7 +74,7 @@ void h_number(void) {
     spec = dict(unit=name, site="K15_forestindex_numbering", lang="c", source="include/parmcb/forestindex.hpp ForestIndex::create_index (numbering loop)",
                 text=fn, entry="h_number", enforce="number", rewrites=log, timeout=600,
                 dropped=["spanning_forest call (contract K15a as precondition); index.clear(); reverse_index.resize(m)"],
-                assumptions=["K15a: spanning_forest returns the component count and emits exactly n-k edges of g (enforced bounded in E3)",
+                assumptions=["K15a: spanning_forest returns the component count and emits exactly n-k edges of g (clause P1 of unit K15a_spanning_forest; bounded in E3 as well)",
                              "std::map / std::vector / boost::edges iteration contracts as bound above"],
                 trusted=["cbmc 6.11 + DFCC, SAT back end"])
     if bounded:
